@@ -267,9 +267,9 @@ func (g *G) newCase(o genOpts) (*objCase, *TD, reflect.Value) {
 }
 
 func genObjMarshal(g *G, tier string, emit func(string)) {
-	n := 12000
+	n := 40000
 	if tier == "thorough" {
-		n = 250000
+		n = 800000
 	}
 	for i := 0; i < n; i++ {
 		c, t, v := g.newCase(optsFull)
